@@ -51,7 +51,7 @@ func ReadFrom(r io.Reader) (*Index, error) {
 	if err != nil {
 		return nil, err
 	}
-	if int32(idx.depth) < 0 {
+	if int32(idx.depth) < 0 || idx.depth > maxDepth {
 		return nil, errors.New("csi: invalid index depth value")
 	}
 	var n int32
